@@ -22,11 +22,11 @@ go build ./... && rm $WT/$place/zz_seed_demo_test.go && go test -count=1 ./... 2
 cp $D/demo_test.go $WT/$place/zz_seed_demo_test.go
 echo "-- demo with the change:"; (eval "$run" 2>&1 | tail -6)
 cd /verif
-if [ -n "$(git -C /repo status --porcelain)" ]; then echo "/repo not clean"; exit 7; fi
-git -C /repo apply $D/patch.diff || exit 6
+rm -f $WT/$place/zz_seed_demo_test.go
+OUT=/tmp/wt/seedout.$$; mkdir -p $OUT
 for id in "$@"; do
-  echo "== check $id on /repo with the change:"
-  timeout 900 ./check.sh $id --tier quick 2>&1 | grep -v "^  \(sched\|race\|findings\|render\|scale\|gf\|poly\|bitlist\)" | cut -c1-260 | head -14
+  echo "== check $id on the changed tree:"
+  VERIF_REPO=$WT VERIF_OUT=$OUT timeout 1200 ./check.sh $id --tier ${TIER:-quick} 2>&1 | grep -v "^  \(sched\|race\|findings\|render\|scale\|gf\|poly\|bitlist\)" | cut -c1-260 | head -${LINES_OUT:-12}
   echo "   exit=${PIPESTATUS[0]}"
 done
-git -C /repo checkout -- . ; git -C /repo status --porcelain
+rm -rf $OUT
